@@ -11,7 +11,9 @@ package chainx
 import (
 	"context"
 	"fmt"
+	"os"
 	"runtime"
+	"strings"
 	"sync"
 	"sync/atomic"
 
@@ -28,6 +30,8 @@ type Options struct {
 	K        int  // deviation bound
 	PerSlot  bool // compare after every slot (C02 style) instead of only after blocks
 	Hooks    []Hook
+	// Differential: retry failing steps on a reloaded state with a from-scratch context (C08)
+	Differential bool
 	// OnlyHooks: mismatches of the plain state comparison belong to C01/C02 and are not reported under
 	// this property (the history is still cut there: the two sides have diverged)
 	OnlyHooks bool
@@ -75,6 +79,29 @@ func (e *explorer) report(path []string, sig, msg string) {
 
 // step applies one choice at `slot` to node n (in place). Returns false if the history must stop.
 func (e *explorer) step(ctx context.Context, n *chainh.Node, slot uint64, ch chainh.Choice, path []string) (ok bool, skipped bool) {
+	if e.opt.Differential {
+		// C08: when the step fails on the long-lived (state, context) pair, the same step is retried on the
+		// reloaded state with a from-scratch context; success there means the long-lived context was the cause.
+		pre := n.Branch()
+		defer func() {
+			if ok || skipped {
+				return
+			}
+			fresh, err := pre.Reloaded()
+			if err != nil {
+				return
+			}
+			var r chainh.StepResult
+			if ch.Skip {
+				r = fresh.StepSlots(ctx, slot)
+			} else {
+				r = fresh.StepBlockMode(ctx, slot, ch.Plan, e.opt.PerSlot)
+			}
+			if r.Mismatch == "" && !r.Skipped {
+				e.report(path, "differential/step-fails-only-with-the-long-lived-context", fmt.Sprintf("slot %d, choice %q: the step fails on the long-lived state+context but succeeds (and equals the specification) on the reloaded state with a from-scratch context", slot, ch.String()))
+			}
+		}()
+	}
 	if ch.Skip {
 		atomic.AddInt64(&e.st.Transitions, 1)
 		r := n.StepSlots(ctx, slot)
@@ -140,6 +167,9 @@ func (e *explorer) runFrom(ctx context.Context, spine []*chainh.Node, devs []dev
 		}
 	}
 	atomic.AddInt64(&e.st.Histories, 1)
+	if d := os.Getenv("VERIF_DEBUG_HIST"); d != "" && strings.Contains(strings.Join(path, " | "), d) {
+		fmt.Fprintf(os.Stderr, "history completed: %v (validators at end: %d)\n", path, len(n.Ref.Validators))
+	}
 	if e.st.Histories%50 == 1 {
 		e.run.Sample(8, map[string]interface{}{"scenario": e.sc.Name, "history": path})
 	}
